@@ -1665,6 +1665,165 @@ fn rc_leaves(bases: &[&str]) -> Vec<String> {
     out
 }
 
+/// One bundling run (real `darklua_core::process`) with use_luau_configuration on and `.luaurc`
+/// files in the layout. `lua_files`: (path, require literals the file returns); the first one is the
+/// entry. Returns the set of leaf files whose marker text was inlined, or the error text.
+fn real_bundle_rc(mode: &Mode, proj: &str, leaves: &[String], rcs: &[(String, Vec<(String, String)>)], lua_files: &[(String, Vec<String>)]) -> Result<BTreeSet<String>, String> {
+    let mode = mode.clone();
+    let proj = proj.to_owned();
+    let leaves = leaves.to_vec();
+    let rcs = rcs.to_vec();
+    let lua_files = lua_files.to_vec();
+    std::panic::catch_unwind(move || {
+        let resources = Resources::from_memory();
+        for f in &leaves {
+            resources.write(f, &format!("return {:?}", f)).unwrap();
+        }
+        for (dir, entries) in &rcs {
+            let body: Vec<String> = entries.iter().map(|(k, v)| format!("{:?}: {:?}", k, v)).collect();
+            let path = if dir.is_empty() { ".luaurc".to_owned() } else { format!("{}/.luaurc", dir) };
+            resources.write(&path, &format!("{{ \"aliases\": {{ {} }} }}", body.join(", "))).unwrap();
+        }
+        for (path, literals) in &lua_files {
+            let body: Vec<String> = literals.iter().map(|l| format!("require({:?})", l)).collect();
+            resources.write(path, &format!("return {{ {} }}", body.join(", "))).unwrap();
+        }
+        let text = format!("{{ rules: [], generator: 'dense', bundle: {{ require_mode: {} }} }}", mode_json5(&mode).replace("use_luau_configuration: false", "use_luau_configuration: true"));
+        let config: darklua_core::Configuration = json5::from_str(&text).map_err(|e| format!("configuration {}", e))?;
+        let config = config.with_location(&proj);
+        let out = "bundle-output/out.lua";
+        let options = darklua_core::Options::new(&lua_files[0].0).with_output(out).with_configuration(config);
+        let errors: Vec<String> = match darklua_core::process(&resources, options) {
+            Ok(tree) => tree.result().err().map(|es| es.iter().map(|e| e.to_string()).collect()).unwrap_or_default(),
+            Err(e) => vec![e.to_string()],
+        };
+        if !errors.is_empty() {
+            return Err(format!("error: {}", errors.join(" | ")));
+        }
+        let code = resources.get(out).map_err(|_| "error: no output".to_owned())?;
+        Ok(leaves.iter().filter(|f| code.contains(&format!("'{}'", f)) || code.contains(&format!("\"{}\"", f))).cloned().collect())
+    })
+    .unwrap_or_else(|_| Err("panic".to_owned()))
+}
+
+#[derive(Clone, Debug)]
+struct BundleRcCase {
+    mode: Mode,
+    proj: String,
+    leaves: Vec<String>,
+    rcs: Vec<(String, Vec<(String, String)>)>,
+    /// (path, require literals); the first file is the entry
+    lua_files: Vec<(String, Vec<String>)>,
+}
+
+impl BundleRcCase {
+    fn to_json(&self) -> Value {
+        let mut v = mode_to_json(&self.mode);
+        v["op"] = json!("bundle-rc");
+        v["proj"] = json!(self.proj);
+        v["files"] = json!(self.leaves);
+        v["luaurc"] = json!(self.rcs.iter().map(|(d, m)| json!([d, m.iter().map(|(k, v)| json!([k, v])).collect::<Vec<_>>()])).collect::<Vec<_>>());
+        v["lua_files"] = json!(self.lua_files.iter().map(|(p, ls)| json!([p, ls])).collect::<Vec<_>>());
+        v
+    }
+
+    fn from_json(v: &Value) -> Option<BundleRcCase> {
+        let pairs = |x: &Value| -> Option<Vec<(String, String)>> { Some(x.as_array()?.iter().filter_map(|e| Some((e[0].as_str()?.to_owned(), e[1].as_str()?.to_owned()))).collect()) };
+        Some(BundleRcCase {
+            mode: mode_from_json(v)?,
+            proj: v["proj"].as_str()?.to_owned(),
+            leaves: v["files"].as_array()?.iter().filter_map(|f| f.as_str().map(str::to_owned)).collect(),
+            rcs: v["luaurc"].as_array()?.iter().filter_map(|e| Some((e[0].as_str()?.to_owned(), pairs(&e[1])?))).collect(),
+            lua_files: v["lua_files"].as_array()?.iter().filter_map(|e| Some((e[0].as_str()?.to_owned(), e[1].as_array()?.iter().filter_map(|l| l.as_str().map(str::to_owned)).collect()))).collect(),
+        })
+    }
+
+    fn as_run(&self) -> RcRun {
+        RcRun { proj: self.proj.clone(), current: self.mode.clone(), target: self.mode.clone(), leaves: self.leaves.clone(), rcs: self.rcs.clone(), sources: vec![], kind: "bundle-rc" }
+    }
+
+    /// The leaf files a correct bundle inlines when every alias-prefixed require of a file is
+    /// resolved with the `.luaurc` that governs `table_of(file)`. `Err` = some require cannot be
+    /// resolved (the run must fail). Relative requires between the Lua files are not leaves.
+    fn predicted(&self, table_of: &dyn Fn(&str) -> String) -> Result<BTreeSet<String>, ()> {
+        let run = self.as_run();
+        let mut out = BTreeSet::new();
+        for (path, literals) in &self.lua_files {
+            for l in literals {
+                if l.starts_with('.') {
+                    continue;
+                }
+                let mut segs = l.split('/');
+                let name = segs.next().unwrap_or("");
+                let tail: Vec<&str> = segs.collect();
+                let base = run.documented_base(&table_of(path), name).ok_or(())?;
+                match expect_for(&base, &tail, &self.leaves) {
+                    Expect::File(loc) => {
+                        out.insert(loc_string(&loc));
+                    }
+                    _ => return Err(()),
+                }
+            }
+        }
+        Ok(out)
+    }
+
+    /// known finding C15-F33's region: some bundled module with an alias-prefixed require is governed
+    /// by another `.luaurc` than the entry
+    fn module_under_other_rc(&self) -> bool {
+        let run = self.as_run();
+        let entry_rc = run.nearest_rc(&self.lua_files[0].0).map(|(d, _)| d.clone());
+        self.lua_files[1..].iter().any(|(p, ls)| ls.iter().any(|l| !l.starts_with('.')) && run.nearest_rc(p).map(|(d, _)| d.clone()) != entry_rc)
+    }
+}
+
+/// judge one `.luaurc` bundling case: `Ok(bucket)` or `Err(violation text)`
+fn judge_bundle_rc(case: &BundleRcCase, f33_known: bool) -> Result<&'static str, String> {
+    let got = real_bundle_rc(&case.mode, &case.proj, &case.leaves, &case.rcs, &case.lua_files).map_err(|e| e);
+    let same = |want: &Result<BTreeSet<String>, ()>| match (want, &got) {
+        (Ok(w), Ok(g)) => w == g,
+        (Err(()), Err(e)) => e.starts_with("error"),
+        _ => false,
+    };
+    // documented: every file's requires use the `.luaurc` nearest to THAT file
+    let documented = case.predicted(&|file: &str| file.to_owned());
+    if same(&documented) {
+        return Ok(if documented.is_ok() { "inlines the files of each module's own .luaurc" } else { "fails as documented" });
+    }
+    // C15-F33: the entry's alias table is used for the requires of every bundled module
+    let entry = case.lua_files[0].0.clone();
+    let entry_table = case.predicted(&|_file: &str| entry.clone());
+    if case.module_under_other_rc() && f33_known && same(&entry_table) {
+        return Ok("C15-F33 (entry's alias table used for a module under another .luaurc)");
+    }
+    Err(format!("documented {:?}, bundled {:?}", documented, got))
+}
+
+fn bundle_rc_cases() -> Vec<BundleRcCase> {
+    let mut out = Vec::new();
+    let leaves = rc_leaves(&["src/lib", "src/pkg/vendor", "src/vendor", "src/pkg/lib", "lib", "vendor", "cfg/lib", "cfg/vendor", "src/other/lib"]);
+    let outer = (s("src"), vec![(s("lib"), s("./lib"))]);
+    let nested = (s("src/pkg"), vec![(s("lib"), s("./vendor"))]);
+    let root = (s(""), vec![(s("lib"), s("./lib"))]);
+    for proj in [".", "cfg"] {
+        for (mode, ext) in [(Mode::Luau { aliases: vec![] }, "luau"), (Mode::Path { folder: s("init"), sources: vec![] }, "lua")] {
+            let f = |stem: &str| format!("{}.{}", stem, ext);
+            for rcs in [vec![outer.clone(), nested.clone()], vec![outer.clone()], vec![nested.clone()], vec![root.clone(), nested.clone()], vec![root.clone()]] {
+                for literal in ["@lib/util", "@lib/sub/m"] {
+                    // the entry requires a module in a deeper directory, both use the alias
+                    out.push(BundleRcCase { mode: mode.clone(), proj: s(proj), leaves: leaves.clone(), rcs: rcs.clone(), lua_files: vec![(f("src/main"), vec![s("./pkg/m"), s(literal)]), (f("src/pkg/m"), vec![s(literal)])] });
+                    // only the module uses the alias
+                    out.push(BundleRcCase { mode: mode.clone(), proj: s(proj), leaves: leaves.clone(), rcs: rcs.clone(), lua_files: vec![(f("src/main"), vec![s("./pkg/m")]), (f("src/pkg/m"), vec![s(literal)])] });
+                    // a sibling module governed by the same `.luaurc` as the entry, and the deep module as entry
+                    out.push(BundleRcCase { mode: mode.clone(), proj: s(proj), leaves: leaves.clone(), rcs: rcs.clone(), lua_files: vec![(f("src/main"), vec![s("./other/n"), s(literal)]), (f("src/other/n"), vec![s(literal)])] });
+                    out.push(BundleRcCase { mode: mode.clone(), proj: s(proj), leaves: leaves.clone(), rcs: rcs.clone(), lua_files: vec![(f("src/pkg/m"), vec![s(literal), s("./deep/k")]), (f("src/pkg/deep/k"), vec![s(literal)])] });
+                }
+            }
+        }
+    }
+    out
+}
+
 /// single-file runs: the alias comes from a `.luaurc` (root or an ancestor of the requiring file),
 /// crossed with the darklua configuration's location
 fn rc_single_runs() -> Vec<RcRun> {
@@ -2317,6 +2476,20 @@ A locator case is non-trivial when at least one candidate file exists (the loop 
             let orders = permutations(&all);
             check_rc_run(report, &mut model, run, &orders);
         }
+        // bundling: the requires of every bundled module must use the `.luaurc` nearest to that module
+        let f33_known = known_entry(&known, "C15-F33").is_some();
+        let bundles = bundle_rc_cases();
+        for case in &bundles {
+            report.case(Some(hash_of(&("bundle-rc", format!("{:?}{:?}", case.mode, case.rcs), &case.proj, &case.lua_files))));
+            match judge_bundle_rc(case, f33_known) {
+                Ok(bucket) => report.hist("luaurc-bundle", bucket),
+                Err(what) => {
+                    report.hist("luaurc-bundle", "differs");
+                    report.violation(Violation { kind: s("oracle"), check: s("luaurc-bundle-uses-nearest-luaurc"), what, input: case.to_json(), failing_input_found: true });
+                }
+            }
+        }
+        report.count("luaurc_bundle_runs", bundles.len() as u64);
         report.count("luaurc_single_runs", singles.len() as u64);
         report.count("luaurc_multi_runs", multis.len() as u64);
         report.exhaustive.insert(s("luaurc: nested/outer .luaurc layouts processed in every order of their requiring files"), true);
@@ -2357,6 +2530,19 @@ fn replay_known(report: &mut Report, known: &[Value]) {
                         report.known_finding(id, &format!("{}: `{}` from `{}` gives `{}`, documented `{}`", e["site"].as_str().unwrap_or(""), case.req, case.source, real, right));
                     } else {
                         report.violation(Violation { kind: s("finding-changed"), check: format!("known-finding/{}", id), what: format!("expected `{}` (recorded defect) or `{}` (repaired), got `{}`", wrong, right, real), input: w.clone(), failing_input_found: true });
+                    }
+                }
+            }
+            Some("bundle-rc") => {
+                if let Some(case) = BundleRcCase::from_json(w) {
+                    let got = real_bundle_rc(&case.mode, &case.proj, &case.leaves, &case.rcs, &case.lua_files);
+                    let set = |x: &Value| -> BTreeSet<String> { x.as_array().map(|a| a.iter().filter_map(|f| f.as_str().map(str::to_owned)).collect()).unwrap_or_default() };
+                    let right = set(&w["right_output"]);
+                    let wrong = set(&w["wrong_output"]);
+                    match &got {
+                        Ok(g) if *g == right => {}
+                        Ok(g) if *g == wrong => report.known_finding(id, &format!("bundling {:?}: inlined {:?}, documented {:?} (the module's `.luaurc` is ignored)", case.lua_files, g, right)),
+                        other => report.violation(Violation { kind: s("finding-changed"), check: format!("known-finding/{}", id), what: format!("expected {:?} (recorded defect) or {:?} (repaired), got {:?}", wrong, right, other), input: w.clone(), failing_input_found: true }),
                     }
                 }
             }
@@ -2437,6 +2623,14 @@ fn check_corpus_entry(report: &mut Report, model: &mut Model, v: &Value, known: 
                 };
                 if !same {
                     report.violation(Violation { kind: s("oracle"), check: s("corpus/bundle"), what: format!("expected `{}`, bundled `{}`", expect, got), input: input.clone(), failing_input_found: true });
+                }
+            }
+        }
+        Some("bundle-rc") => {
+            if let Some(case) = BundleRcCase::from_json(input) {
+                report.case(Some(("corpus-bundle-rc", input.to_string())));
+                if let Err(what) = judge_bundle_rc(&case, known_entry(known, "C15-F33").is_some()) {
+                    report.violation(Violation { kind: s("oracle"), check: s("corpus/luaurc-bundle"), what, input: input.clone(), failing_input_found: true });
                 }
             }
         }
